@@ -23,6 +23,9 @@ type PoolDef struct {
 	// AfterDelete: every set is additionally built with each further pool pattern registered and
 	// deleted again (the router went through a node split and a merge); only those routers are evaluated
 	AfterDelete bool
+	// AfterAbort: every set is additionally built with each further pool pattern registered inside a write
+	// transaction that is aborted
+	AfterAbort bool
 }
 
 func fanStatics(n int) []string {
@@ -65,6 +68,11 @@ func Pools(quick bool) []PoolDef {
 	pools = append(pools, PoolDef{Name: "bytes", Patterns: bytesPats, Paths: rsx.GenPaths([]string{"$", "!a", "+", "~", "b"}, 3), Hosts: []string{""}, K: k - 1})
 	// after-delete: the core pool again, every set built with one more pattern registered and deleted
 	pools = append(pools, PoolDef{Name: "core-after-delete", Patterns: core, Paths: rsx.GenPaths(reqSegs, 3), Hosts: []string{""}, K: k - 1, AfterDelete: true})
+	// siblings-after-abort: up to four siblings with distinct first bytes under "/" and under "/b/" (an edge slice
+	// that grew one by one has spare capacity at three children), every set built with each further pattern
+	// registered inside a write transaction that is aborted: nothing of it may show
+	sibs := []string{"/$", "/!a", "/+", "/b", "/~", "/{p0}", "/*{c0}", "/b/$", "/b/+", "/b/a", "/b/~", "/b/{p1}"}
+	pools = append(pools, PoolDef{Name: "siblings-after-abort", Patterns: sibs, Paths: rsx.GenPaths([]string{"$", "!a", "+", "b", "~", "a"}, 2), Hosts: []string{""}, K: 4, AfterAbort: true})
 	// hostname pool
 	var hostPats []string
 	for _, h := range []string{"a.b", "b.a.b", "{h}.b", "a.{t}", "a{m}.b"} {
@@ -115,6 +123,8 @@ type Case struct {
 	Req rsx.Req         `json:"req"`
 	// Extra, when set, is registered after Set and deleted again before the request
 	Extra string `json:"extra,omitempty"`
+	// Aborted: Extra was registered inside a write transaction that was aborted (instead of registered and deleted)
+	Aborted bool `json:"aborted,omitempty"`
 }
 
 type aux = rsx.TxnViews
@@ -266,7 +276,7 @@ func runPool(c *mc.Ctx, r *mc.Result, pd PoolDef) {
 		evalEnv := func(e *rsx.Env, extra string) {
 			a, err := buildAux(e)
 			if err != nil {
-				r.Violate("rsx", "txn-disagree", err.Error()+" set "+rsx.SetString(set), Case{Set: set, Extra: extra})
+				r.Violate("rsx", "txn-disagree", err.Error()+" set "+rsx.SetString(set), Case{Set: set, Extra: extra, Aborted: pd.AfterAbort})
 				return
 			}
 			r.States++
@@ -276,7 +286,7 @@ func runPool(c *mc.Ctx, r *mc.Result, pd PoolDef) {
 			}
 			pre := ""
 			if extra != "" {
-				pre = fmt.Sprintf("[after Handle(%s) and Delete(%s)] ", extra, extra)
+				pre = preOf(extra, pd.AfterAbort)
 			}
 			for _, h := range pd.Hosts {
 				for _, p := range pd.Paths {
@@ -292,14 +302,14 @@ func runPool(c *mc.Ctx, r *mc.Result, pd PoolDef) {
 							r.DistinctNontrivial++
 						}
 						if class != "" {
-							r.Violate("rsx", class, pre+msg, Case{Set: set, Req: rq, Extra: extra})
+							r.Violate("rsx", class, pre+msg, Case{Set: set, Req: rq, Extra: extra, Aborted: pd.AfterAbort})
 						}
 					}
 				}
 			}
 			a.Close()
 		}
-		if pd.AfterDelete {
+		if pd.AfterDelete || pd.AfterAbort {
 			inSet := map[string]bool{}
 			for _, s := range set {
 				inSet[s.Pattern] = true
@@ -308,7 +318,13 @@ func runPool(c *mc.Ctx, r *mc.Result, pd PoolDef) {
 				if inSet[extra] {
 					continue
 				}
-				e, err := rsx.BuildAfterDelete(set, "GET", extra, false, rsx.Profile{})
+				var e *rsx.Env
+				var err error
+				if pd.AfterAbort {
+					e, err = rsx.BuildAfterAbort(set, "GET", extra, rsx.Profile{})
+				} else {
+					e, err = rsx.BuildAfterDelete(set, "GET", extra, false, rsx.Profile{})
+				}
 				if err != nil {
 					r.Count("histories_rejected_by_router", 1)
 					continue
@@ -331,6 +347,13 @@ func runPool(c *mc.Ctx, r *mc.Result, pd PoolDef) {
 	})
 }
 
+func preOf(extra string, aborted bool) string {
+	if aborted {
+		return fmt.Sprintf("[after an aborted transaction that registered %s] ", extra)
+	}
+	return fmt.Sprintf("[after Handle(%s) and Delete(%s)] ", extra, extra)
+}
+
 func replay(c *mc.Ctx, raw json.RawMessage) string {
 	var cs Case
 	if err := json.Unmarshal(raw, &cs); err != nil {
@@ -339,9 +362,12 @@ func replay(c *mc.Ctx, raw json.RawMessage) string {
 	var e *rsx.Env
 	var err error
 	pre := ""
-	if cs.Extra != "" {
+	if cs.Extra != "" && cs.Aborted {
+		e, err = rsx.BuildAfterAbort(cs.Set, "GET", cs.Extra, rsx.Profile{})
+		pre = preOf(cs.Extra, true)
+	} else if cs.Extra != "" {
 		e, err = rsx.BuildAfterDelete(cs.Set, "GET", cs.Extra, false, rsx.Profile{})
-		pre = fmt.Sprintf("[after Handle(%s) and Delete(%s)] ", cs.Extra, cs.Extra)
+		pre = preOf(cs.Extra, false)
 	} else {
 		e, err = rsx.Build(cs.Set, rsx.Profile{})
 	}
